@@ -569,6 +569,17 @@ class Folder:
 
     def e_BinOp(self, n, env):
         a, b = self.ev(n.left, env), self.ev(n.right, env)
+        if self.symbolic and type(n.op) in self._OPSYM and not isinstance(n.op, ast.MatMult):
+            # a scalar symbol combined with a literal array: elementwise (numpy broadcasting of a 0-d operand)
+            for x, y, flip in ((a, b, False), (b, a, True)):
+                if isinstance(x, Opaque) and x.tag in ("float", "int") and isinstance(y, Arr) and all(is_num(v) for v in y.flat()):
+                    op = self._OPSYM[type(n.op)]
+
+                    def comb(v, x=x, op=op, flip=flip):
+                        if op == "*" and v == 1:
+                            return x
+                        return Sym(op, [v, x] if flip else [x, v])
+                    return y.map(comb)
         if self.symbolic and (isinstance(a, (Sym, Opaque)) or isinstance(b, (Sym, Opaque))) and type(n.op) in self._OPSYM \
                 and not (isinstance(a, (list, tuple)) or isinstance(b, (list, tuple))):
             return Sym(self._OPSYM[type(n.op)], [a, b])
@@ -666,6 +677,25 @@ class Folder:
 
     def e_Compare(self, n, env):
         left = self.ev(n.left, env)
+        if len(n.ops) == 1 and type(n.ops[0]) in self._CMPSYM:
+            right0 = self.ev(n.comparators[0], env)
+            # a literal array compared with a number (or an array of the same shape): elementwise, like numpy
+            if isinstance(left, Arr) != isinstance(right0, Arr) or (isinstance(left, Arr) and isinstance(right0, Arr) and left.shape == right0.shape):
+                other = right0 if isinstance(left, Arr) else left
+                if isinstance(other, Arr) or is_num(other) or (self.symbolic and isinstance(other, (Sym, Opaque)) and not (isinstance(other, Opaque) and other.tag == "callable")):
+                    op = n.ops[0]
+
+                    def one(x, y):
+                        if is_num(x) and is_num(y):
+                            return self._cmp(op, x, y)
+                        if self.symbolic and all(is_num(v) or isinstance(v, (Sym, Opaque)) for v in (x, y)):
+                            return Sym(self._CMPSYM[type(op)], [x, y])
+                        raise Refuse("array comparison")
+                    if isinstance(left, Arr) and isinstance(right0, Arr):
+                        return left.zip(right0, one)
+                    if isinstance(left, Arr):
+                        return left.map(lambda x: one(x, right0))
+                    return right0.map(lambda y: one(left, y))
         if self.symbolic and len(n.ops) == 1 and type(n.ops[0]) in self._CMPSYM:
             right = self.ev(n.comparators[0], env)
             if (isinstance(left, (Sym, Opaque)) or isinstance(right, (Sym, Opaque))) and left is not None and right is not None \
@@ -781,6 +811,14 @@ class Folder:
             if isinstance(i, tuple) and i and all(isinstance(x, (int, slice)) and not isinstance(x, bool) for x in i) \
                     and all(x.start is None or isinstance(x.start, int) for x in i if isinstance(x, slice)) and all(x.stop is None or isinstance(x.stop, int) for x in i if isinstance(x, slice)):
                 return v.index(i)
+            if isinstance(i, Arr) and len(i.shape) == 1 and len(v.shape) >= 1 and i.data and all(isinstance(x, bool) for x in i.data) and len(i.data) == len(v.data):
+                return Arr([x for x, keep in zip(v.data, i.data) if keep])
+            if isinstance(i, Arr) and len(i.shape) == 1 and len(v.shape) >= 1 and all(isinstance(x, int) and not isinstance(x, bool) for x in i.data):
+                # gather along the first axis with a literal index vector
+                try:
+                    return Arr([v.data[x] for x in i.data])
+                except IndexError:
+                    raise Raised("IndexError")
             raise Refuse("array index")
         if isinstance(v, (str, list, tuple)):
             if not isinstance(i, int) or isinstance(i, bool):
@@ -975,7 +1013,7 @@ class Folder:
             try:
                 return getattr(self, "c_" + name.replace(".", "_"))(args, kw)
             except (Refuse, TypeError, AttributeError):
-                if not (self.symbolic and (name.startswith("np.") or name in ("set", "list", "tuple", "sorted", "len", "abs", "min", "max", "frozenset")) and any(isinstance(x, (Sym, Opaque)) for a_ in list(args) + list(kw.values()) for x in (a_ if isinstance(a_, (list, tuple)) else [a_]))):
+                if not (self.symbolic and (name.startswith("np.") or name in ("set", "list", "tuple", "sorted", "len", "abs", "min", "max", "frozenset", "int", "float")) and any(isinstance(x, (Sym, Opaque)) for a_ in list(args) + list(kw.values()) for x in (a_ if isinstance(a_, (list, tuple)) else [a_]))):
                     raise
                 # a numpy routine applied to symbolic operands stays a term
                 sy = Sym(name, args, kw)
@@ -1340,6 +1378,21 @@ class Folder:
             return self.c_np_hstack([a[0]], {})
         raise Refuse("concatenate axis")
 
+    def c_np_arange(self, a, kw):
+        if 1 <= len(a) <= 3 and all(isinstance(x, int) and not isinstance(x, bool) for x in a) and set(kw) <= {"dtype"}:
+            return Arr(list(range(*a)))
+        raise Refuse("np.arange of non-constants")
+
+    def c_np_delete(self, a, kw):
+        x, i = a[0], (a[1] if len(a) > 1 else kw.get("obj"))
+        if isinstance(x, (list, tuple)):
+            x = Arr(list(x))
+        if isinstance(x, Arr) and len(x.shape) == 1 and isinstance(i, int) and not isinstance(i, bool) and -len(x.data) <= i < len(x.data) and not (set(kw) - {"obj"}):
+            d = list(x.data)
+            del d[i]
+            return Arr(d)
+        raise Refuse("np.delete form")
+
     def c_np_tile(self, a, kw):
         x, reps = (a + [None])[:2] if len(a) >= 2 else (a[0], kw.get("reps"))
         if isinstance(x, (list, tuple)):
@@ -1366,6 +1419,20 @@ class Folder:
         if len(a) != 3:
             raise Refuse("np.where form")
         c, x, y = a
+        if isinstance(c, Arr) and len(c.shape) == 1 and all(isinstance(v, bool) or (self.symbolic and isinstance(v, Sym)) for v in c.data):
+            def pick(v, k):
+                if isinstance(v, Arr):
+                    if v.shape != c.shape:
+                        raise Refuse("np.where operands")
+                    return v.data[k]
+                if isinstance(v, (list, tuple)):
+                    raise Refuse("np.where operands")
+                return v
+            out = []
+            for k, cv in enumerate(c.data):
+                xv, yv = pick(x, k), pick(y, k)
+                out.append((xv if cv else yv) if isinstance(cv, bool) else Sym("np.where", [cv, xv, yv]))
+            return Arr(out)
         if isinstance(c, bool):
             return x if c else y
         if isinstance(c, (list, tuple)) and all(isinstance(v, bool) for v in c) and not isinstance(x, (list, tuple, Arr)) and not isinstance(y, (list, tuple, Arr)):
@@ -1544,6 +1611,8 @@ class Folder:
             return
         if isinstance(st, ast.For):
             it = self.ev(st.iter, env)
+            if isinstance(it, Arr) and len(it.shape) == 1:
+                it = list(it.data)
             if not isinstance(it, (list, tuple, str)):
                 raise Refuse("for over non-literal")
             broke = False
